@@ -395,7 +395,7 @@ def twins(R, ctx):
     for fn, which in (('State::initialize_with_rotation', 'Naming::writes_direct'), ('State::mount_next_linewriter_if_necessary', 'NamingState::writes_direct')):
         b = ctx.body(rf'::{fn}$')
         p = ctx.ip.prov(b.path)
-        sites = [(bb, t) for bb, t in b.calls() if re.search(r'remove_or_compress_too_old_logfiles$|start_cleanup_thread$', callee_name(t))]
+        sites = [(bb, t) for bb, t in b.calls() if re.search(r'remove_or_compress_too_old_logfiles(_impl)?$|start_cleanup_thread$', callee_name(t))]
         for bb, t in sites:
             roots = p.op_roots(t['args'][-1])
             ok = any(r_[0] == 'call' and r_[1].endswith('writes_direct') for r_ in roots) and not any(r_[0] == 'const' for r_ in roots)
@@ -453,7 +453,7 @@ def current_spared(R, ctx):
         b = ctx.body(rf'::{fn}$')
         p = ctx.ip.prov(b.path)
         for bb, t in b.calls():
-            if re.search(r'remove_or_compress_too_old_logfiles$|start_cleanup_thread$', callee_name(t)):
+            if re.search(r'remove_or_compress_too_old_logfiles(_impl)?$|start_cleanup_thread$', callee_name(t)):
                 roots = p.op_roots(t['args'][-2])
                 ok = any(r_[0] == 'call' and r_[1].endswith('NamingState::infix_filter') for r_ in roots) and \
                     not any(r_[0] == 'agg' and 'InfixFilter' in r_[1] for r_ in roots)
